@@ -199,9 +199,13 @@ static ChildResult run_forked(const Plan &p) {
 }
 
 // ddmin over the operation list; a candidate is kept only if it fails with the same property and class
-static Plan shrink(const Plan &orig, const string &prop, const string &cls, int budget, int *runs_used) {
+static double now_s();
+static double g_shrink_wall = 90; // seconds per candidate; minimisation is best-effort, the unshrunk plan is a valid replay too
+static Plan shrink(const Plan &orig, const string &prop, const string &cls, int budget0, int *runs_used) {
   Plan best = orig;
   int used = 0;
+  const double t0 = now_s();
+  struct Budget { int *used; int cap; double t0; bool operator>(int u) const { return u < cap && now_s() - t0 < g_shrink_wall; } } budget{&used, budget0, t0};
   // a candidate that no longer fails under the original scheduler seed is retried under two more seeds when the plan
   // is multi-threaded: removing operations shifts every later scheduling decision, and the interleaving that matters
   // is often found again nearby
@@ -211,14 +215,14 @@ static Plan shrink(const Plan &orig, const string &prop, const string &cls, int 
     if (fails_once(q)) return true;
     if (!multi) return false;
     uint64_t s0 = q.sc.seed;
-    for (int k = 1; k <= 2 && used < budget; k++) { q.sc.seed = s0 + 7919ULL * k; if (fails_once(q)) return true; }
+    for (int k = 1; k <= 2 && budget > used; k++) { q.sc.seed = s0 + 7919ULL * k; if (fails_once(q)) return true; }
     q.sc.seed = s0;
     return false;
   };
   size_t chunk = std::max<size_t>(1, best.ops.size() / 2);
-  while (used < budget) {
+  while (budget > used) {
     bool progress = false;
-    for (size_t start = 0; start < best.ops.size() && used < budget;) {
+    for (size_t start = 0; start < best.ops.size() && budget > used;) {
       Plan q = best;
       size_t end = std::min(start + chunk, q.ops.size());
       q.ops.erase(q.ops.begin() + (long)start, q.ops.begin() + (long)end);
@@ -227,15 +231,15 @@ static Plan shrink(const Plan &orig, const string &prop, const string &cls, int 
     if (chunk == 1) { if (!progress) break; } else chunk = std::max<size_t>(1, chunk / 2);
   }
   // simplify arguments: shorter values, no sync, fewer batch updates
-  for (size_t i = 0; i < best.ops.size() && used < budget; i++) {
+  for (size_t i = 0; i < best.ops.size() && budget > used; i++) {
     Op &o = best.ops[i];
     if (o.kind == O_PUT && o.len > 16) { Plan q = best; q.ops[i].len = 16; if (fails(q)) best = q; }
-    if (best.ops[i].kind == O_WRITE && best.ops[i].ups.size() > 1 && used < budget) {
+    if (best.ops[i].kind == O_WRITE && best.ops[i].ups.size() > 1 && budget > used) {
       Plan q = best; q.ops[i].ups.resize(1); if (fails(q)) best = q;
     }
   }
   // simpler schedule
-  if (used < budget && best.sc.policy != sim::P_BG_STARVE) { Plan q = best; q.sc.policy = sim::P_BG_STARVE; q.sc.spurious = false; q.sc.nonfifo_signal = false; q.sc.create_order = 0; if (fails(q)) best = q; }
+  if (budget > used && best.sc.policy != sim::P_BG_STARVE) { Plan q = best; q.sc.policy = sim::P_BG_STARVE; q.sc.spurious = false; q.sc.nonfifo_signal = false; q.sc.create_order = 0; if (fails(q)) best = q; }
   *runs_used = used;
   return best;
 }
@@ -295,7 +299,7 @@ static int cmd_run(int argc, char **argv) {
     else if (a == "--replay-dir") g_replay_dir = val();
     else if (a == "--tier") g_thorough = (val() == "thorough");
     else if (a == "--light") g_light = true;
-    else if (a == "--known") { string k = val(); size_t e = k.find('='); g_known.push_back({k.substr(0, e), e == string::npos ? "" : k.substr(e + 1)}); } else if (a == "--max-candidates") max_cand = atoi(val().c_str()); else if (a == "--shrink-budget") shrink_budget = atoi(val().c_str());
+    else if (a == "--known") { string k = val(); size_t e = k.find('='); g_known.push_back({k.substr(0, e), e == string::npos ? "" : k.substr(e + 1)}); } else if (a == "--max-candidates") max_cand = atoi(val().c_str()); else if (a == "--shrink-budget") shrink_budget = atoi(val().c_str()); else if (a == "--shrink-wall") g_shrink_wall = atof(val().c_str());
     else { fprintf(stderr, "unknown option %s\n", a.c_str()); return 2; }
   }
   const Mode *m = find_mode(mode);
